@@ -5,7 +5,7 @@ from .. import rt, framework as fw
 from . import _scn
 
 NOTICE = "Please update to the latest ascmhl version using `pip3 install -U ascmhl`."
-BEHAVIOURS = ["newer", "older", "same", "pre", "dev", "garbage", "notag", "list", "nojson", "http404", "http500", "connerr", "timeout", "oserror", "slow", "late", "hang"]
+BEHAVIOURS = ["newer", "older", "same", "pre", "dev", "garbage", "notag", "list", "nojson", "http404", "http500", "connerr", "timeout", "oserror", "slow", "late", "hang", "garbage_slow", "notag_slow"]
 PY = "/venv/bin/python"
 
 
@@ -59,6 +59,9 @@ def run(ctx):
             plan.append((b, "debug", ["verify", w_sealed], 0))
             plan.append((b, "debug", ["verify", w_alt], 11))
             plan.append((b, "debug", ["hash", "-h", "md5", os.path.join(w_sealed, "a.txt")], 0))
+            # verbose runs: the command's diagnostic channel is standard output, the checker must stay off it
+            plan.append((b, "main", ["info", "-v", w_sealed], 0))
+            plan.append((b, "debug", ["verify", "-v", w_sealed], 0))
         # references without the checker
         refs = {}
         for _, _, args, _ in plan:
@@ -96,8 +99,8 @@ def run(ctx):
     finally:
         shutil.rmtree(base, ignore_errors=True)
     cov = {"evaluations": evals, "distinct_nontrivial": evals,
-           "rule": "one evaluation = one (server behaviour, CLI group, command, world) run in a FRESH interpreter with requests.get stubbed before the import that starts the checker thread; compared with the same command run without the checker: exit code, stdout minus one trailing notice, duration <= +1 s (+ scheduling slack); 17 behaviours x 6 command/world combinations",
-           "samples": samples, "input_distribution": {"behaviours": BEHAVIOURS, "commands": ["info(0)", "diff(10)", "info(30)", "verify(0)", "verify(11)", "hash(0)"]},
+           "rule": "one evaluation = one (server behaviour, CLI group, command, world) run in a FRESH interpreter with requests.get stubbed before the import that starts the checker thread; compared with the same command run without the checker: exit code, stdout minus one trailing notice, duration <= +1 s (+ scheduling slack); 19 behaviours x 8 command/world combinations (two of them with -v)",
+           "samples": samples, "input_distribution": {"behaviours": BEHAVIOURS, "commands": ["info(0)", "diff(10)", "info(30)", "verify(0)", "verify(11)", "hash(0)", "info -v(0)", "verify -v(0)"]},
            "monitor": {"cases": evals, "failing": len(fails)}, "exhaustive": False}
     return fw.finish(ctx, cov, fails, [], assumptions=["CPython's scheduler and click's callback plumbing are exercised, not modelled", "timing slack 0.8 s in-process / 2.0 s process wall on top of the 1 s join"])
 
